@@ -45,7 +45,7 @@ typedef struct {
     size_t mit_freed, modis_calls, elig_count, fetchsub_calls, hits, tellif_calls, regexec_calls; int modis_mask;
     size_t regcomp_calls, mapnew_calls, subsdtor_calls; const void *map_key; const char *freed_topic;
     size_t tellsubs_calls; const void *route_key, *route_to, *route_sender, *route_data; const char *route_topic; bool route_system;
-    size_t visited, visited_user, mapfree_calls;
+    size_t visited, visited_user, mapfree_calls, pollcreate_calls, fscreate_calls;
     bool quit_at_iter; uint8_t quitcode_at_iter;
     size_t eval_passes, flush_calls, sys_at_flush, pollinit_calls, pollclear_calls, tick_poll_calls, tick_reads, thpool_free_calls; int tick_poll_flag;
     ev_src_t *newevt_src; size_t tls_set_calls, ctxnew_calls; size_t mapclear_calls, fd_opened, epoll_calls, pollrm_calls; int epoll_op, epoll_fd;
